@@ -192,6 +192,19 @@ let check_and_show op field dbg (u : ZZ.t array) =
 
 let run _id op a =
   match op, a with
+  | "seq", field :: ops :: spec ->
+      (* composition of the model's transforms (the library functions are pure) *)
+      let width = if field = "b" then 1 else 3 in
+      let u = parse_vec width spec in
+      let rec go (vals : ZZ.t array) = function
+        | [] -> Some vals
+        | o :: rest ->
+            (match run_model o field false (to_words width vals) with
+             | None -> None
+             | Some y -> go y rest) in
+      (match go (Array.map md u) (String.split_on_char ',' ops) with
+       | None -> "PANIC"
+       | Some y -> show_values y width)
   | "root", [field; n] ->
       let nz = z n in
       let chk r =
